@@ -127,7 +127,37 @@ def build_harness():
     log(f"harness built in {time.time() - t0:.1f}s")
 
 
+_swept = False
+
+
+def _sweep_stale_scratch():
+    """scratch directories of check processes that no longer exist (killed runs) are removed: they live in memory"""
+    global _swept
+    if _swept:
+        return
+    _swept = True
+    try:
+        for name in os.listdir(SCRATCH_BASE):
+            m = re.match(r"^(?:xs-verif|xsv)\.(\d+)(?:\.|$)", name)
+            if not m:
+                continue
+            pid = int(m.group(1))
+            p = os.path.join(SCRATCH_BASE, name)
+            try:
+                os.kill(pid, 0)
+                continue            # still running
+            except ProcessLookupError:
+                pass
+            except PermissionError:
+                continue
+            if time.time() - os.path.getmtime(p) > 600:
+                shutil.rmtree(p, ignore_errors=True)
+    except OSError:
+        pass
+
+
 def scratch(tag):
+    _sweep_stale_scratch()
     d = os.path.join(SCRATCH_BASE, f"xs-verif.{os.getpid()}.{tag}")
     shutil.rmtree(d, ignore_errors=True)
     os.makedirs(d)
